@@ -10,7 +10,7 @@
    den / dens / denv = the operator denoted by an Op / a list of Op / a Python value. *)
 From Coq Require Import ZArith List Bool Sorted.
 Import ListNotations.
-From RV Require Import Model.OpAlg Proofs.OpAlgProofs.
+From RV Require Import Model.OpAlg Gen.CheckTerms Proofs.OpAlgProofs.
 
 (* ---------------- Op level ---------------- *)
 Theorem C15_den_mul_op_op : forall ra ma, malg_ok ra ma -> forall a b : op ra,
@@ -200,6 +200,39 @@ Theorem C15_zero_filter_den : forall ra ma, malg_ok ra ma -> ralg_ok ra -> foral
 Proof. exact zero_filter_den. Qed.
 Print Assumptions C15_zero_filter_den.
 
+(* ---------------- Model.check_operator_terms, translated from the source on every run (Gen/CheckTerms.v) -------- *)
+(* the discard test found in the source is the exact comparison of the factor with zero (no tolerance) *)
+Theorem C15_check_terms_test_exact : forall ra (o : op ra), ct_discard ra o = reqb ra (factor o) (r0 ra).
+Proof. exact ct_discard_exact. Qed.
+Print Assumptions C15_check_terms_test_exact.
+
+(* the translated validate-and-filter loop raises iff some dof is unknown and otherwise is the model's zero filter *)
+Theorem C15_check_terms_is_zero_filter : forall ra known (s r : list (op ra)),
+  ct_filter ra known s = Some r <-> (forallb (ct_dofs_known ra known) s = true /\ r = zero_filter ra s).
+Proof. exact ct_filter_spec. Qed.
+Print Assumptions C15_check_terms_is_zero_filter.
+
+(* a term survives iff its factor is non-zero -- however small it is *)
+Theorem C15_check_terms_keeps_iff_nonzero : forall ra, ralg_ok ra -> forall known (s r : list (op ra)) o,
+  ct_filter ra known s = Some r -> (In o r <-> In o s /\ factor o <> r0 ra).
+Proof. exact ct_filter_keeps_iff_nonzero. Qed.
+Print Assumptions C15_check_terms_keeps_iff_nonzero.
+
+(* scale equivariance: for every scalar c that is not a zero divisor, filter (terms * c) = (filter terms) * c *)
+Theorem C15_check_terms_scale_equivariant : forall ra, ralg_ok ra -> forall known c,
+  (forall a, rmul ra a c = r0 ra -> a = r0 ra) -> rmul ra (r0 ra) c = r0 ra ->
+  forall s : list (op ra),
+  ct_filter ra known (sum_scal ra s c) = option_map (fun r => sum_scal ra r c) (ct_filter ra known s).
+Proof. exact ct_filter_scale. Qed.
+Print Assumptions C15_check_terms_scale_equivariant.
+
+(* the cleaned term list of a Model denotes the sum of the operators / operator sums handed to it *)
+Theorem C15_check_terms_den : forall ra, ralg_ok ra -> forall ma, malg_ok ra ma ->
+  forall known (l : list (val ra)) r, check_operator_terms ra known l = Some r ->
+  dens ra ma r = fold_right (fun v acc => madd ma (denv ra ma v) acc) (m0 ma) l.
+Proof. exact check_operator_terms_den. Qed.
+Print Assumptions C15_check_terms_den.
+
 (* ---------------- split_elementary ---------------- *)
 Theorem C15_split_elementary_den : forall ra ma, malg_ok ra ma ->
   forall site : dof -> Z, sites_commute ra ma site -> forall o : op ra,
@@ -271,6 +304,18 @@ Example C15_squeeze_examples :
   /\ squeeze ZR (@mkOp ZR [(3, 0, [1; 0]); (0, 1, [0; 0])] 1) = Some (@mkOp ZR [(3, 0, [1; 0])] 1)
   /\ squeeze ZR (@mkOp ZR [(0, 4, [1; 0]); (0, 1, [0; 1])] 2) = Some (@mkOp ZR [(0, 4, [0; 0])] 2).
 Proof. repeat split; reflexivity. Qed.
+(* check_operator_terms: an Op and an OpSum are ravelled, the exactly-zero term is dropped, a factor of
+   2^-100 is kept (dyadic instance); an unknown dof or a plain list raises; c = 2^-100 is not a zero divisor *)
+Example C15_check_terms_examples :
+  check_operator_terms DG (fun d => d <? 2)
+    [@VO DG (@mkOp DG [(3, 0, [0])] (1, 0, -100)); @VSum DG [@mkOp DG [(4, 1, [0])] (0, 0, 0); @mkOp DG [(5, 1, [0])] (0, 3, 0)]]
+  = Some [@mkOp DG [(3, 0, [0])] (1, 0, -100); @mkOp DG [(5, 1, [0])] (0, 3, 0)]
+  /\ check_operator_terms DG (fun d => d <? 2) [@VO DG (@mkOp DG [(3, 2, [0])] (1, 0, 0))] = None
+  /\ check_operator_terms DG (fun d => d <? 2) [@VL DG [@mkOp DG [(3, 0, [0])] (1, 0, 0)]] = None.
+Proof. repeat split; reflexivity. Qed.
+Example C15_scale_hypotheses_satisfiable :
+  (forall a, rmul ZR a 7 = r0 ZR -> a = r0 ZR) /\ rmul ZR (r0 ZR) 7 = r0 ZR.
+Proof. simpl. split; [intros a H; destruct a; simpl in *; try reflexivity; discriminate|reflexivity]. Qed.
 (* OpSum.product([]) is the empty sum, i.e. it denotes 0 (not the unit): the product theorem is
    stated for non-empty lists *)
 Example C15_empty_product_is_zero : forall ma : malg ZR,
